@@ -7,16 +7,22 @@
 include!(concat!(env!("OUT_DIR"), "/gram_mods.rs"));
 
 mod cli;
+mod core;
 mod corpus;
 mod eterm;
 mod fw;
+mod gen_prog;
 mod gen_syn;
 mod hast;
+mod perturb;
+mod pipe;
 mod printer;
 mod props;
+mod reval;
 mod rgram;
 mod rnamed;
 mod rtok;
+mod typed;
 mod util;
 
 use fw::{Prop, Tier};
